@@ -3,6 +3,7 @@ package main
 import (
 	"os"
 	"runtime"
+	"strconv"
 	"sync"
 	_ "unsafe" // go:linkname
 )
@@ -95,6 +96,8 @@ type Sched struct {
 	children sync.WaitGroup
 	spawned  int
 	n0       int               // tasks the scheduler started with; slots above are goroutines of the code under test
+	swLog    [192][4]int64     // the first context switches: step, from, site, to (for the replay file)
+	swN      int
 	waiting  [maxTasks]bool    // inside a cooperative wait (lock, channel, WaitGroup): poll again later
 	streak   [maxTasks]int64   // consecutive polls without a step of its own
 }
@@ -316,6 +319,10 @@ func (s *Sched) handTo(me, next, site int) {
 		return
 	}
 	s.switches++
+	if s.swN < len(s.swLog) {
+		s.swLog[s.swN] = [4]int64{s.steps, int64(me), int64(site), int64(next)}
+		s.swN++
+	}
 	s.trace.add(uint64(me)<<40 | uint64(site+1)<<16 | uint64(next))
 	recordPair(s.lastSite[me], s.lastSite[next])
 	flushPools()
@@ -508,4 +515,24 @@ func drawStrategy(pl *Stream, tier string, allowSerial bool) Strategy {
 		st.Horizon = []int64{50, 500, 5000, 50000}[pl.Intn(4)]
 	}
 	return st
+}
+
+// siteNames maps a yield site to "file:line" of the original source.
+var siteNames []string
+
+// scheduleTrace renders the first context switches of a run for the replay file.
+func (s *Sched) scheduleTrace() []string {
+	var out []string
+	for i := 0; i < s.swN; i++ {
+		e := s.swLog[i]
+		at := "?"
+		if int(e[2]) >= 0 && int(e[2]) < len(siteNames) {
+			at = siteNames[e[2]]
+		}
+		out = append(out, "step "+strconv.FormatInt(e[0], 10)+": task "+strconv.FormatInt(e[1], 10)+" at "+at+" -> task "+strconv.FormatInt(e[3], 10))
+	}
+	if int64(s.swN) < s.switches {
+		out = append(out, "... "+strconv.FormatInt(s.switches-int64(s.swN), 10)+" more")
+	}
+	return out
 }
